@@ -20,15 +20,20 @@ use std::collections::HashSet;
 
 pub fn parse_files(state: &mut CompilationState, symbols: &HashSet<String>) {
     for file in &mut state.files {
+        // Remember which elements can be looked up by name before this file is parsed.
+        let lookup_table = state.ast.lookup_table().clone();
+
         // Attempt to parse the file.
         let mut diagnostics = Diagnostics::new();
         parse_file(file, &mut state.ast, &mut diagnostics, symbols.clone());
 
         // If the file failed to parse, some of its elements can be left in the AST without the containers they belong to
-        // (the parser adds members to the AST before their containers are complete). Lints reported for such elements
-        // must not lead back to them.
+        // (the parser adds members to the AST before their containers are complete). Lints must not lead back to them:
+        // neither the lints reported for such elements, nor the lints that other files report for elements with the
+        // same name. So the lints of this file lose their scopes, and its elements can't be looked up by name.
         if diagnostics.has_errors() {
             diagnostics.clear_scopes();
+            state.ast.set_lookup_table(lookup_table);
         }
 
         // Store any diagnostics that were emitted during parsing.
